@@ -479,6 +479,8 @@ struct WkdRun {
             else { call_begin(ss, &sf); R.jv_wk_sign_precomputed(view, sig2, sys.params, pk->sk, &ja.l, pre, m32, jv_rand_cb); }
             env.soft(wk_marshal(R, view, JV_OK_WK_SIG, sg.sig, true) == wk_marshal(R, view, JV_OK_WK_SIG, sig2, true), "C14", "sign_precomputed:interchangeable", "sign and sign_precomputed with the same stream differ for " + list_str(L));
             env.count("probe:sign_vs_sign_precomputed_compared");
+            // C13 speaks of every signing entry point: what sign_precomputed produced must verify for its own list and message too
+            if (sg.expect_valid) { bool ok2 = verify_both(sg.list, sig2, sg.msg, "signature made by sign_precomputed"); if (!ok2) env.soft(false, "C13", "verify:accepts-valid", "signature made by sign_precomputed by key " + pat_str(pk->pat) + " on list " + list_str(L) + (only_fixed && (ss & 1) ? " (list passed as NULL)" : "") + " does not verify"); }
         }
         bool ok = verify_both(sg.list, sg.sig, sg.msg, "fresh signature");
         if (sg.expect_valid && !ok) env.soft(false, "C13", "verify:accepts-valid", "signature by key " + pat_str(pk->pat) + " on list " + list_str(L) + " does not verify");
